@@ -293,6 +293,28 @@ impl serde::de::IntoDeserializer<'_, Error> for crate::ImDocument<String> {
     }
 }
 
+/// Location for a table that has no span of its own (one created through dotted keys or implied by
+/// the header of a sub-table): the range covering all of its keys and values
+pub(crate) fn span_of_children(
+    items: &crate::table::KeyValuePairs,
+) -> Option<std::ops::Range<usize>> {
+    let mut span: Option<std::ops::Range<usize>> = None;
+    for (key, item) in items {
+        let item_span = item.span().or_else(|| match item {
+            crate::Item::Table(t) => span_of_children(&t.items),
+            crate::Item::Value(crate::Value::InlineTable(t)) => span_of_children(&t.items),
+            _ => None,
+        });
+        for child in [key.span(), item_span].into_iter().flatten() {
+            span = Some(match span {
+                Some(span) => span.start.min(child.start)..span.end.max(child.end),
+                None => child,
+            });
+        }
+    }
+    span
+}
+
 pub(crate) fn validate_struct_keys(
     table: &crate::table::KeyValuePairs,
     fields: &'static [&'static str],
